@@ -149,6 +149,7 @@ type Node struct {
 	PostErr  int // 0: none; i>0: post number i returns an error (1-based); negative: returns *ZogIssue
 	PostWrap bool // the error returned by post number PostErr is not a ZogIssue but wraps one (%w)
 	PostMut  bool // the first post changes the value it is given
+	PostMut2 bool // the second post changes the value it is given
 	PostNoPath bool // the *ZogIssue returned by post number -PostErr carries no path of its own
 	Elem     *Node
 	Fields   []*Field
@@ -222,7 +223,7 @@ func (n *Node) Describe() string {
 	for i := 0; i < n.NPosts; i++ {
 		if n.PostErr == i+1 && n.PostWrap {
 			sb.WriteString(".PostTransform(err wrapping a zogissue)")
-		} else if n.PostMut && i == 0 {
+		} else if (n.PostMut && i == 0) || (n.PostMut2 && i == 1) {
 			sb.WriteString(".PostTransform(changes the value)")
 		} else if n.PostErr == i+1 {
 			sb.WriteString(".PostTransform(err)")
@@ -576,7 +577,7 @@ func BuildZog(n *Node, r *Recorder) z.ZogSchema {
 	mkPost := func(i int) z.PostTransform {
 		return func(ptr any, ctx z.Ctx) error {
 			r.rec(who(fmt.Sprintf("post%d", i+1)), ptr, ctx)
-			if n.PostMut && i == 0 {
+			if (n.PostMut && i == 0) || (n.PostMut2 && i == 1) {
 				mutateValue(ptr)
 			}
 			if n.PostErr == i+1 {
